@@ -19,6 +19,9 @@ solver("C15", "merge (with and without ancestor), combine and split on solvers p
 solver("C16", "Tracked Solver / SolverCacheless / SolverComposite histories with unsat_core(): TLC checks empty core on satisfiable sets, every element a constraint that was added (or currently held), and unsatisfiability of the conjunction of the core by enumeration.")
 solver("C17", "Fault injection: z3.Solver.check returns unknown (timeout / resource limit / other) at the k-th check of a random operation; TLC requires a claripy error for the faulted call and validates every later answer of the solver and its branches against the unchanged model set.", cat="fault_enumeration")
 solver("C18", "Histories with in-process pickle round trips of every frontend class after arbitrary prefixes; the unpickled solver is a new id with the same model set in SolverAbs and every later answer of both copies is validated.")
+CHECKS["C19"] = dict(engine="gc", cat="model_checking", tech="PlusCal/TLA+ line-level model (GcGuard.tla) exhaustively checked by TLC; transition-cover replay on the real _enter_z3/_exit_z3/condom under a deterministic line-level scheduler; recorded traces validated by TLC against GcGuardAbs.tla",
+  text="TLC explores every line-level interleaving of up to 3 threads with nested enter/exit scripts and both initial GC states and checks: GC disabled while a call is in flight, counter never negative, flag restored. Every edge of the dumped state graph is replayed on the real functions (lock and gc substituted at run time), the projected state and the enabled set are compared with the model after every step (bounded refinement check), and every recorded run is validated by TLC against the abstract spec, which alone produces verdicts; code that no longer follows the line-level model falls back to exhaustive exploration of the real code's interleavings.",
+  note="Trusted: TLC, CPython line events as the grain of atomicity (one source line atomic), the scheduler. Bounds: <= 3 threads, nesting <= 2. SIGINT handling in condom is not modelled.", ref="5 C19")
 NOT_YET = "check not built yet in this round (planned in DESIGN.md section 5); not claimed"
 def main():
     props = [json.loads(l)["id"] for l in open(os.path.join(V, "properties.jsonl"))]
@@ -45,6 +48,7 @@ def main():
                   "source_commits": [], "add_only": True},
         "engines": [
             {"name": "expr", "path": "harness/eng_expr.py", "serves_properties": ["C01", "C04", "C05"], "kind_free_text": "construction events -> TLC (TraceExpr.tla) constant-level trace validation against Term.tla"},
+            {"name": "gc", "path": "harness/eng_gc.py", "serves_properties": ["C19"], "kind_free_text": "TLC state graph of GcGuard.tla -> path cover replayed by harness/sched.py on the real code -> TraceGc.tla"},
             {"name": "solver", "path": "harness/eng_solver.py", "serves_properties": ["C11", "C12", "C13", "C14", "C15", "C16", "C17", "C18"], "kind_free_text": "solver histories on real frontends -> TLC (TraceSolver.tla) trace validation against SolverAbs.tla"},
         ],
         "checks": checks,
